@@ -240,6 +240,7 @@ class SendEventResponse(StreamingResponse[ServerSentEvent]):
     def render_stream(self) -> Generator[bytes, None, None]:
         q: "queue.Queue[ServerSentEvent | None]" = queue.Queue(maxsize=1)
         should_stop = False
+        client_closed = False
 
         def push() -> None:
             nonlocal should_stop
@@ -253,7 +254,8 @@ class SendEventResponse(StreamingResponse[ServerSentEvent]):
                     except StopIteration:
                         should_stop = True
             finally:
-                q.put(None)
+                if not client_closed:  # otherwise nobody reads the queue any more
+                    q.put(None)
                 g = self.iterable
                 if hasattr(g, "close"):
                     g.close()  # type: ignore
@@ -271,6 +273,7 @@ class SendEventResponse(StreamingResponse[ServerSentEvent]):
                     yield b": ping\n\n"
         finally:
             should_stop = True
+            client_closed = True
             while not q.empty():
                 q.get_nowait()  # pragma: no cover
             if not push_future.cancel():
